@@ -166,11 +166,18 @@ class Chart:
 
     def _enum(self, name, i, j, path):
         key = (name, i, j)
-        if j not in self.span[name][i] or key in path:
+        if j not in self.span[name][i]:
             return []
-        if self._memo is not None and key in self._memo:
-            return self._memo[key]
-        path2 = path | {key}
+        if self._memo is not None:
+            # acyclic grammar: no node can contain itself over the same span, so no guard is
+            # needed and memoisation is exact
+            if key in self._memo:
+                return self._memo[key]
+            path2 = path
+        else:
+            if key in path:
+                return []
+            path2 = path | {key}
         res = []
         for p in self.rg.nts[name].prods:
             for ch in self._seqs(p.rhs, 0, i, j, path2):
@@ -180,6 +187,15 @@ class Chart:
         if self._memo is not None:
             self._memo[key] = res
         return res
+
+    def _feasible(self, rhs, k, p, j):
+        """can rhs[k:] span exactly (p, j)?  (chart lookups only)"""
+        if k == len(rhs):
+            return p == j
+        s = rhs[k]
+        if s[0] == 'T':
+            return any(q <= j and self._feasible(rhs, k + 1, q, j) for (_, q) in self.inp.tmatch(s[1], p))
+        return any(q <= j and self._feasible(rhs, k + 1, q, j) for q in self.span[s[1]][p])
 
     def _seqs(self, rhs, k, p, j, path):
         if k == len(rhs):
@@ -194,7 +210,9 @@ class Chart:
                         yield (('t', s[1], s[2], st, q),) + rest
         else:
             for q in sorted(self.span[s[1]][p]):
-                if q <= j:
+                # only descend into sub-derivations that can be completed by the rest of the
+                # alternative: the recursion then follows real derivations only
+                if q <= j and self._feasible(rhs, k + 1, q, j):
                     subs = self._enum(s[1], p, q, path)
                     if subs:
                         rests = list(self._seqs(rhs, k + 1, q, j, path))
